@@ -568,10 +568,13 @@ func (vm *Thread) run() {
 			vm.opPromise()
 		case bytecode.AWAIT:
 			promise := (*Promise)(vm.peek().Pointer())
+			verifAsync("await:enter", promise, nil, vm)
 			promise.m.Lock()
+			verifAsync("await:locked", promise, nil, vm)
 
 			if !promise.IsResolved() {
 				// promise is not resolved, switching contexts
+				verifAsync("await:checked-unsettled", promise, nil, vm)
 				vm.state = awaitState
 				return
 			}
@@ -581,6 +584,7 @@ func (vm *Thread) run() {
 			result := promise.result
 			stackTrace := promise.stackTrace
 			promise.m.Unlock()
+			verifAsync("await:settled-unlocked", promise, nil, vm)
 
 			if !err.IsUndefined() {
 				vm.pop()
@@ -594,6 +598,7 @@ func (vm *Thread) run() {
 			vm.ipIncrement() // skip over AWAIT_RESULT
 		case bytecode.AWAIT_RESULT:
 			promise := (*Promise)(vm.peek().Pointer())
+			verifAsync("continuation:resume", promise, nil, vm)
 
 			if !promise.IsResolved() {
 				panic("promise is still unresolved after await")
@@ -614,7 +619,9 @@ func (vm *Thread) run() {
 		case bytecode.AWAIT_SYNC:
 			promise := (*Promise)(vm.peek().Pointer())
 
+			verifAsync("awaitsync:before", promise, nil, vm)
 			result, stackTrace, err := promise.AwaitSync()
+			verifAsync("awaitsync:after", promise, nil, vm)
 			if !err.IsUndefined() {
 				vm.pop()
 				// rethrow either unwinds to a catch in this run loop (keep executing there)
